@@ -200,4 +200,20 @@ CHECKS = {
               'reconnects after the keeper returns belongs to C07.'),
         note=COMMON_NOTE + 'asyncio (sleep/wait/wait_for/Event) and the virtual-time loop of tools/sim/simlib.py are trusted; the model abstracts the keeper to arrival times.',
         technique='Lean 4 theorems (induction over arrival lists, omega); differential correspondence on a virtual-time event loop with a scripted peer'),
+    'C07': dict(
+        text=('Proof (tier 3, supervisor as a function of a fault script). Props/C07.lean over the model of ESME.start()/connect()/stop() '
+              '(after repair f1bdb3b) and of SimpleExponentialBackoff: for every fault script of any length (connect refused / hanging, '
+              'bind rejected / unanswered / garbled, sessions ended by the peer) start() without stop() goes through every cycle and '
+              'never returns (runs_until_stopped); when it returns stop() had been called (returns_only_after_stop); consecutive '
+              'failures are spaced by the failed step plus the back-off delays 0, min, 2 min, ..., capped at min*2^m '
+              '(failures_backoff + backoff_sequence), and a successful bind makes the sequence start over whatever preceded it '
+              '(bind_resets_backoff); after stop() at any moment start() returns within B = max(socket_timeout + grace, back-off cap, '
+              'wind-down of the bound session) (stop_bounded, induction over the script with the back-off invariant). Tied to esme.py '
+              'by sessions on a virtual-time loop against a scripted SMSC: observed connect / bound / unbind / return times equal the '
+              'model in all three bind modes, for several back-off parameters, stop() at random moments. Decided by predicates on the '
+              'observed runs only, not by theorems: session state CLOSED, every connection closed, unbind on the wire when bound, '
+              'no exception from start(); the wind-down latency of a bound session whose peer neither answers nor closes is '
+              'observed (bounded by enquire_link_interval + 1 s), not derived.'),
+        note=COMMON_NOTE + 'asyncio and the virtual-time loop are trusted; a cycle is summarised by its duration and the 0.5 s task grace; same-instant orderings of stop() and other events are excluded by sub-millisecond offsets.',
+        technique='Lean 4 theorems (induction over fault scripts with a back-off invariant, omega); differential correspondence on a virtual-time event loop with a scripted peer; shutdown predicates'),
 }
